@@ -17,7 +17,8 @@ var modelNames = map[string]bool{
 	"(time.Time).IsZero": false,
 	"cmp.Compare":        true,
 	"sync.NewCond":       true,
-	"sort.SliceStable":   false, "sort.Slice": false, "sort.Strings": false,
+	"fmt.Errorf":         true, "errors.New": true,
+	"sort.SliceStable": false, "sort.Slice": false, "sort.Strings": false,
 }
 
 func (E *Engine) modelled(name string) bool { return modelNames[name] }
@@ -72,6 +73,14 @@ func (E *Engine) model(fr *Frame, st *State, name string, fn *ssa.Function, args
 			return tb.Ite(tb.Eq(a, b), tb.Int(0), tb.Ite(tb.App("<", SBool, a, b), tb.Int(-1), tb.Int(1))), true
 		}
 		return nil, false
+	case "fmt.Errorf", "errors.New":
+		// a non-nil error whose identity does not matter
+		if fr.spec {
+			return nil, false
+		}
+		r := tb.Fresh("err", SIfc)
+		E.addFact(st, tb.And(tb.Cmp(">", E.ifcTag(r), tb.Int(0))))
+		return r, true
 	case "sync.NewCond":
 		// a fresh Cond whose L is the given Locker
 		ct := fn.Signature.Results().At(0).Type().(*types.Pointer).Elem()
